@@ -848,6 +848,3 @@ func H_C02_serix_map() {
 		verifrt.Cover("accepted")
 	}
 }
-
-
-
